@@ -817,6 +817,11 @@ ExitStatus Builder::Build(string* err) {
         bool command_finished = FinishCommand(cc, err);
         SetFailureCode(result.exit_status());
         if (!command_finished) {
+          // FinishCommand() can fail before the plan has seen the edge (e.g.
+          // when an output cannot be stat'ed); the edge is no longer active
+          // in the command runner either, so give its job slot back here.
+          if (jobserver_.get())
+            jobserver_->Release(std::move(cc.edge->job_slot_));
           Cleanup();
           status_->BuildFinished();
           if (result.success()) {
